@@ -61,6 +61,23 @@ def run(run):
         # minimised past disagreement (model joined call-name identifiers with "." even after an empty MISSING identifier)
         inputs += [("missing-identifier", b"class A { void f(){ x = .<T>z(a); y = .z(b).<U>w(); } }"),
                    ("missing-identifier", bytes.fromhex("7c2d2b3bff223e7d637a7b2b227a7c3cc36161227b623c260a282c633d2e293d2f622728632d222f202e3c78ff2a2e2b26ff002e780a7a28a97d7bff616229292d27"))]
+        # Javadoc stress: tag lines made of fragments of inline tags, braces, comment delimiters, wrapped over lines
+        frags = ["{@link", "{@", "}", "{", "@param", "@return", "@", "*", "/", "<b>", "\\", "\"", "  ", "\t", "{@code x", "#m(", ")", "[", "]", "-->", "&", "{@link Foo}", "x",
+                 "{@literal", "}}", "{{", "@see", "java.util.*", "https://x/", "é", "\u00a0", "{@value #K"]
+        for i in range(30 if quick else 600):
+            parts = ["class J%d {\n" % i]
+            for j in range(4):
+                lines = ["  /**", "   * " + " ".join(rng.choice(frags) for _ in range(rng.randint(0, 4)))]
+                for _ in range(rng.randint(1, 5)):
+                    lead = rng.choice(["   * ", "   *", "   ", " * ", "*"])
+                    tag = rng.choice(["@param p", "@return", "@see", "@throws E", "@author", "@version", "@since", "@x", "@"])
+                    lines.append(lead + tag + " " + " ".join(rng.choice(frags) for _ in range(rng.randint(0, 5))))
+                    if rng.random() < 0.4:
+                        lines.append("   *     " + " ".join(rng.choice(frags) for _ in range(rng.randint(1, 3))))
+                lines.append("   */")
+                parts.append("\n".join(lines) + "\n  " + rng.choice(["void m%d(int p) { }" % j, "int f%d = 1;" % j, "class N%d { }" % j, "@Deprecated void d%d() { }" % j]) + "\n")
+            parts.append("}\n")
+            inputs.append(("javadoc-stress", "".join(parts).encode("utf-8")))
         # a local declaration followed, in the same block, by deeply nested code in trailing positions
         for dd in (10, 16, 24):
             inputs.append(("local-then-deep", ("class A { int f(int a){ return a; } void m(boolean c){ int unused = 0; int r = " + "f(" * dd + "1" + ")" * dd + "; } }").encode()))
